@@ -103,12 +103,23 @@ def iterates_a_map(cwd):
     return False
 
 
+def mentions_map_iteration(texts):
+    return any(re.search(r"\.(pairs|keys|values)\s*\(", t) for t in texts)
+
+
 def canon_stdout(out, unordered_lines=False):
     """Canonical form of stdout for differential comparison: lines that print a map are
     compared as sorted token multisets (HashMap iteration order differs between processes);
     with unordered_lines (program iterates over a map) the lines themselves are compared as a multiset."""
     if unordered_lines:
-        return "\n".join(sorted(canon_stdout(out).split("\n")))
+        # the program takes keys() / values() / pairs() of a map or iterates over one: the ORDER of what it prints from there on is not defined, neither
+        # between lines nor inside a printed list; such programs are compared as a multiset of lines, each line a multiset of tokens
+        ls = []
+        for line in canon_stdout(out).split("\n"):
+            if "[" in line and "]" in line and not line.startswith("{map}"):
+                line = "[list]" + "|".join(sorted(t for t in re.split(r"[\[\],]\s*", line) if t))
+            ls.append(line)
+        return "\n".join(sorted(ls))
     lines = []
     out = _ADDR.sub("0xN", out)
     for line in out.split("\n"):
